@@ -331,11 +331,11 @@ func (r *runner) check(c kase, _, countNontrivial bool) {
 		return
 	}
 	x := v.diffs[0]
-	what := x.what
-	if x.path != "" {
-		what += " (at " + x.path + ")"
-	}
+	what := x.what // kept free of case data, the driver groups violations by it
 	got := x.got
+	if x.path != "" {
+		got += " at " + x.path
+	}
 	if v.doc != "" {
 		got += "; output " + fmt.Sprintf("%q", trunc(v.doc, 300))
 	}
@@ -815,7 +815,7 @@ func main() {
 		ID:    "C18",
 		Level: "exploration",
 		Rule: "a case is one value tree (description in internal/exptree: lists and maps in a named representation, scalars, Format / Link / File wrappers with style strings, maps and closures) and one exporter (export.XML through export.Export, or export.ToHtml with maxListSize and inlineStyle). The complete output is tokenised by encoding/xml (strict, raw tokens; the harness adds end-tag matching, attribute uniqueness, single root, no comment / PI / directive / CDATA) and compared with the tree the property prescribes: XML list -> <list><entry>…, map -> <map> with the keys as attributes (only if every key is an XML name and every value a scalar) or <entry key=…> children, scalars as character data; HTML against a reference model of the documented table layout, with element / attribute names restricted to the exporter's vocabulary. Every text and attribute value must decode to exactly the string of the value. " +
-			"distinct_nontrivial = distinct outputs that contain at least one escaped character or come from a tree of depth >= 2",
+			"distinct_nontrivial = distinct outputs that contain at least one escaped character or come from a tree of depth >= 2 (counted per worker by a hash of the output and summed; all variants of one string / shape run in the same worker)",
 		Assumptions: []string{
 			"strings, keys, styles, link targets, file names consist of legal XML characters (the property's domain); map keys are distinct",
 			"decoding = what encoding/xml reports (entity / character references, line-end normalisation §2.11) and, for the XML exporter, additionally attribute-value normalisation §3.3.3 computed by the harness from the raw start tag; for ToHtml literal TAB/LF in attribute values are counted as unspecified",
